@@ -331,12 +331,17 @@ def render_session(ctx, case):
     from lib.stubs import RecStream
     from harness import c08
     c08._load_protocols()
-    cmd, nlines = case if isinstance(case, tuple) else (case, 11)
+    cmd, nlines = case[:2] if isinstance(case, tuple) else (case, 11)
+    own = case[2] if isinstance(case, tuple) and len(case) > 2 else None
     lines = ['[1000.100]  -> wl_display@1.get_registry(new id wl_registry@2)', 'col1\tcol2\t\tend', 'some "chatter" \\ here', '[1000.200] wl_registry@2.global(1, "wl_seat", 7)',
              '[1000.300]  -> wl_registry@2.bind(1, "wl_seat", 7, new id [unknown]@3)', '[1003.300] wl_seat@3.capabilities(3)', '[1003.400]  -> wl_display@1.sync(new id wl_callback@4)',
              '[1003.500] wl_display@1.delete_id(4)', '[1003.600] wl_nope@9.x(nil, array, fd 5, -1.5, "it\'s")', '[1003.700] wl_seat@3.name("üñí")',
              '[1003.800]  -> wl_seat@3.get_pointer(new id wl_pointer@5)', '[1003.900] wl_pointer@5.button(1, 2, 272, 1)']
 
+    PROG = ['\x1b[1;31mwarning: the program colours its own output and never switches it off', '\x1b[32mok\x1b[0m balanced, then \x1b[4munderlined to the end']
+    if own is not None:
+        # the program's own escape sequences are the program's business: passed through as they are; the tool adds none of its own when colour is off
+        lines = lines[:3] + [PROG[own]] + lines[3:6] + [PROG[1 - own]] + lines[6:]
     # which side the log was taken on is only known from the direction of get_registry: a log that starts later is of `unknown type`
     side = ctx.choose(['client', 'server', 'unknown'], 'side')
     if side == 'server':
@@ -361,7 +366,18 @@ def render_session(ctx, case):
         ctlr.process_command(cmd)
         return out.items + ['--err--'] + err.items
     c, p = _both(run)
-    _check_pair(ctx, 'session + `%s`' % cmd, c, p)
+    if own is None:
+        _check_pair(ctx, 'session + `%s`' % cmd, c, p)
+    else:
+        from core import util
+        ctx.check('same number of output items', len(c) == len(p))
+        for a, b in zip(c, p):
+            rest = b
+            for t in PROG:
+                rest = rest.replace(t, '')
+            ctx.check('colour off: the only escape sequences in the output are the program\'s own, where the program put them (the tool writes none itself)', ESC not in rest)
+            ctx.check('coloured output and plain output carry the same text', util.no_color(a) == util.no_color(b))
+        ctx.check('both program lines are passed through', all(any(t in b for b in p) for t in PROG[:2]) or nlines < 11)
     ctx.check('the session produced output', len(p) > nlines)
 
 
@@ -434,7 +450,8 @@ def obligations(tier):
            '11-line log; commands: list, list with matcher, filter, breakpoint, connection, help, help matcher, matcher, unknown, empty', render_session,
            cases=['list', 'list wl_seat ~ 2', 'filter wl_pointer ! wl_callback', 'breakpoint wl_seat.name', 'connection', 'connection A', 'connection zz', 'help', 'help list', 'help matcher',
                   'matcher [a, b ! c].d(e=1, "s")', 'zzz', '', 'l [', 'filter', 'breakpoint', 'filter wl_pointer(! x=0)', 'matcher .motion(! 5, nil)', 'breakpoint (! nil)', 'filter (x=0 ! y=1)', 'filter [', 'breakpoint a(b', 'list a.b.c'] +
-                 [(c, n) for n in (0, 1, 2, 3) for c in ('list', 'list wl_nothing', 'list wl_registry ~ 1', 'connection', 'connection A', 'filter wl_nothing')]),
+                 [(c, n) for n in (0, 1, 2, 3) for c in ('list', 'list wl_nothing', 'list wl_registry ~ 1', 'connection', 'connection A', 'filter wl_nothing')] +
+                 [(c, 13, own) for own in (0, 1) for c in ('list', 'connection', 'help', 'zzz')]),
         Ob('paste-back-matcher', 'symx', 'colour sequences around any token (or all tokens) of a matcher text do not change what it parses to', FUNCS[16:17], '%d matcher texts x every token x 3 styles' % len(MATCHER_TEXTS),
            paste_matcher, cases=MATCHER_TEXTS),
         Ob('paste-back-command', 'symx', 'colour sequences around any token of a command line do not change what it does', FUNCS[20:21], '%d command lines x every token x 3 styles' % len(COMMAND_TEXTS),
